@@ -30,6 +30,33 @@ pub fn run(o: &Opts) -> Report {
             jstr(&c.f), jstr(&c.c1), jstr(&c.c2), jstr(&c.ps), c.cfg.ci, c.cfg.rr, c.cfg.xr, c.cfg.yr, c.cfg.mi, jf(c.cfg.tol), jstr(&wire)));
         rep.cases += 1;
     }
+    // call histories: consecutive calls that agree in all texts and resolutions and differ only in the iteration
+    // budgets and the tolerance (the probe replays the file in order, in one interpreter, on one thread): a binding
+    // layer that keeps anything from one call to the next shows up against the stateless Rust answers
+    {
+        let mut hist3: Vec<d3::Case> = vec![];
+        for (c, _) in c3.iter().filter(|(c, _)| c.kind == "smooth").take(4) {
+            for (mi, tol) in [(60usize, 1e-6), (1, 1e-12), (60, 1e-6), (200, 1e-10), (0, 1e-3)] { let mut d = c.clone(); d.cfg.ci = true; d.cfg.mi = mi; d.cfg.tol = tol; hist3.push(d); }
+        }
+        for c in &hist3 {
+            let out = d3::run_string_api(c);
+            let wire = match &out { d3::Out3::Ok(ds) => format!("ok {} {}", ds.len(), ds.iter().map(d3::dump3).collect::<Vec<_>>().join(" ")), d3::Out3::Err(m) => format!("err {}", m), d3::Out3::Panic(_) => "panic".into() };
+            lines.push(format!("{{\"fn\":\"display_cav3d\",\"args\":[{},{},{},{},{},{},{},{},{},{}],\"expect\":{}}}",
+                jstr(&c.f), jstr(&c.c1), jstr(&c.c2), jstr(&c.ps), c.cfg.ci, c.cfg.rr, c.cfg.xr, c.cfg.yr, c.cfg.mi, jf(c.cfg.tol), jstr(&wire)));
+            rep.cases += 1; rep.count("history:display_cav3d");
+        }
+        let mut hist2: Vec<d2::Case> = vec![];
+        for c in c2.iter().filter(|c| c.kind == "smooth").take(6) {
+            for (mrf, mi, tol) in [(100usize, 150usize, 1e-8), (100, 1, 1e-12), (2, 150, 1e-8), (100, 150, 1e-8), (60, 0, 1e-4)] { let mut d = c.clone(); d.cfg.ci = true; d.cfg.mrf = mrf; d.cfg.mi = mi; d.cfg.tol = tol; hist2.push(d); }
+        }
+        for c in &hist2 {
+            let out = d2::run_string_api(c);
+            let wire = match &out { d2::Out2::Ok(ds) => format!("ok {} {}", ds.len(), ds.iter().map(d2::dump2).collect::<Vec<_>>().join(" ")), d2::Out2::Err(m) => format!("err {}", m), d2::Out2::Panic(_) => "panic".into() };
+            lines.push(format!("{{\"fn\":{},\"args\":[{},{},{},{},{},{},{},{},{},{}],\"expect\":{}}}", jstr(if c.rs { "display_cav2d_rs" } else { "display_cav2d" }),
+                jstr(&c.f), jstr(&c.c), jstr(&c.iv), c.cfg.ci, c.cfg.xr, c.cfg.yr, c.cfg.ic, c.cfg.mrf, c.cfg.mi, jf(c.cfg.tol), jstr(&wire)));
+            rep.cases += 1; rep.count("history:display_cav2d");
+        }
+    }
     let path = std::env::var("CAVH_PYCASES").unwrap_or_else(|_| "/verif/work/pycases.jsonl".into());
     std::fs::write(&path, lines.join("\n") + "\n").expect("cannot write pycases");
     rep.notes.push(format!("wrote {} cases to {}", lines.len(), path));
